@@ -237,16 +237,16 @@ func c04Routing(c *core.Ctx) {
 
 // expected (caller, domain) pairs of BaseRunner.signBeaconObject.
 var c04RunnerSites = map[string]string{
-	"ssv/protocol/v2/ssv/runner.AttesterRunner.ProcessConsensus|DomainAttester":                                 "",
-	"ssv/protocol/v2/ssv/runner.ProposerRunner.ProcessConsensus|DomainProposer":                                 "",
-	"ssv/protocol/v2/ssv/runner.ProposerRunner.executeDuty|DomainRandao":                                        "",
-	"ssv/protocol/v2/ssv/runner.AggregatorRunner.ProcessConsensus|DomainAggregateAndProof":                      "",
-	"ssv/protocol/v2/ssv/runner.AggregatorRunner.executeDuty|DomainSelectionProof":                              "",
-	"ssv/protocol/v2/ssv/runner.SyncCommitteeRunner.ProcessConsensus|DomainSyncCommittee":                       "",
-	"ssv/protocol/v2/ssv/runner.SyncCommitteeAggregatorRunner.ProcessConsensus|DomainContributionAndProof":      "",
-	"ssv/protocol/v2/ssv/runner.SyncCommitteeAggregatorRunner.executeDuty|DomainSyncCommitteeSelectionProof":    "",
-	"ssv/protocol/v2/ssv/runner.ValidatorRegistrationRunner.executeDuty|DomainApplicationBuilder":               "",
-	"ssv/protocol/v2/ssv/runner.VoluntaryExitRunner.executeDuty|DomainVoluntaryExit":                            "",
+	"ssv/protocol/v2/ssv/runner.AttesterRunner.ProcessConsensus|DomainAttester":                              "",
+	"ssv/protocol/v2/ssv/runner.ProposerRunner.ProcessConsensus|DomainProposer":                              "",
+	"ssv/protocol/v2/ssv/runner.ProposerRunner.executeDuty|DomainRandao":                                     "",
+	"ssv/protocol/v2/ssv/runner.AggregatorRunner.ProcessConsensus|DomainAggregateAndProof":                   "",
+	"ssv/protocol/v2/ssv/runner.AggregatorRunner.executeDuty|DomainSelectionProof":                           "",
+	"ssv/protocol/v2/ssv/runner.SyncCommitteeRunner.ProcessConsensus|DomainSyncCommittee":                    "",
+	"ssv/protocol/v2/ssv/runner.SyncCommitteeAggregatorRunner.ProcessConsensus|DomainContributionAndProof":   "",
+	"ssv/protocol/v2/ssv/runner.SyncCommitteeAggregatorRunner.executeDuty|DomainSyncCommitteeSelectionProof": "",
+	"ssv/protocol/v2/ssv/runner.ValidatorRegistrationRunner.executeDuty|DomainApplicationBuilder":            "",
+	"ssv/protocol/v2/ssv/runner.VoluntaryExitRunner.executeDuty|DomainVoluntaryExit":                         "",
 }
 
 func c04RunnerCalls(c *core.Ctx) {
